@@ -39,6 +39,10 @@ func generateAllPossibleMRTDs(uefi []byte, tdxRequest *EndorsementRequest) ([]*e
 	var result []*epb.VMTdx_Measurement
 	// Deprecated: To be removed.
 	for _, shape := range tdxRequest.MachineShapes {
+		// A shape without a known RAM bank topology has no launch configuration to measure.
+		if _, err := machineTypeToRAMBanks(shape); err != nil {
+			return nil, err
+		}
 		options := LaunchOptionsDefaultTDHOBBug(shape)
 		meas, err := MRTD(options, uefi)
 		if err != nil {
@@ -50,7 +54,10 @@ func generateAllPossibleMRTDs(uefi []byte, tdxRequest *EndorsementRequest) ([]*e
 		})
 		if tdxRequest.IncludeEarlyAccept {
 			options.DisableUnacceptedMemory = true
-			meas2, _ := MRTD(options, uefi)
+			meas2, err := MRTD(options, uefi)
+			if err != nil {
+				return nil, err
+			}
 			result = append(result, &epb.VMTdx_Measurement{
 				RamGib:      uint32(shapeDesc[shape].size),
 				EarlyAccept: true,
